@@ -13,7 +13,7 @@ RULE = ("cases: every ordered pair of {-2..2}^3 (zero vector included) as 2D poi
         "point on line, line in plane, equal planes/lines, three collinear points, three planes through a line, zero vector, skew lines) "
         "with random rational/dyadic multipliers, collections with random dependent subsets (mask check), mixed coplanar/skew collections; "
         "non-trivial = at least one operand position is degenerate or the call is a collection call; distinct by operand digest."
-        " Tensor.is_zero (the predicate behind every dependence verdict) is compared on every call with the definition 'all tensor entries within the tolerance'; large collections (400-1200 positions, one and two axes); function and method forms; the same object passed twice; histories on 3D line objects; three-argument calls in every way three vectors can be dependent (third in the span of the others, first two proportional, last two proportional, all proportional), mixed inside one collection.")
+        " Tensor.is_zero (the predicate behind every dependence verdict) is compared on every call with the definition 'all tensor entries within the tolerance'; large collections (400-1200 positions, one and two axes); function and method forms; the same object passed twice; histories on 3D line objects; three-argument calls in every way three vectors can be dependent (third in the span of the others, first two proportional, last two proportional, all proportional), mixed inside one collection; the module constants infty / infty_plane themselves as operands against their own representatives.")
 SHARDS = (8, 16)
 REQUIRED = ["jm.raise", "is_coplanar", "is_zero"]
 ASSUMPTIONS = ["Fraction arithmetic is exact", "numpy correct", "wrappers behaviour-preserving"]
